@@ -101,6 +101,8 @@ impl SCfg {
 
 #[derive(Clone, Debug, PartialEq, Serialize, Deserialize)]
 pub enum SFault {
+    /// hand-written prover: violating trace (row, col, new value), "quotient" chosen after zeta, no quotient cap
+    ForgedNoQuotientCap(usize, usize, u64),
     /// (row, col, new value)
     TraceCell(usize, usize, u64),
     /// prover proves with this public input changed: (index, new value)
@@ -134,6 +136,7 @@ fn viol(rep: &mut Report, case: &Case, f: Option<&SFault>, oracle: &str, detail:
     let kind = match f {
         Some(SFault::TraceCell(..)) => "trace_cell".to_string(),
         Some(SFault::ProverPi(..)) => "prover_pi".to_string(),
+        Some(SFault::ForgedNoQuotientCap(..)) => "forged_missing_quotient_cap".to_string(),
         Some(SFault::Message(m)) => format!("message.{}.{}", m.kind(), component(m.path())),
         None => "honest".to_string(),
     };
@@ -231,6 +234,10 @@ fn exec_s<C: GenericConfig<D, F = F>, const COLS: usize, const PIS: usize>(case:
         for k in 0..PIS {
             plan_f.push(SFault::ProverPi(k, (inst.pis[k] + 1) % P));
         }
+        if def.lookups.is_empty() && !def.constraints.is_empty() && n >= 4 {
+            let (row, col) = (r.usize(n), r.usize(COLS));
+            plan_f.push(SFault::ForgedNoQuotientCap(row, col, (inst.rows[row][col] + 1) % P));
+        }
         // a trace whose columns are all constant gives a challenge-independent proof (all openings fit any
         // zeta and any query set): the R3 argument does not apply, a cap entry no new query lands on is legitimately unbound
         let degenerate = inst.rows.iter().all(|row| row == &inst.rows[0]);
@@ -269,6 +276,26 @@ fn exec_s<C: GenericConfig<D, F = F>, const COLS: usize, const PIS: usize>(case:
                     viol(rep, case, Some(f), "satisfying_trace_not_accepted", format!("row {row} col {col} is unconstrained, yet: {}", p.err().unwrap_or("verifier rejected".into())));
                 } else if violated.is_none() {
                     rep.probe("c09.unconstrained_cell_changed_and_accepted");
+                }
+            }
+            SFault::ForgedNoQuotientCap(row, col, nv) => {
+                let mut rows = inst.rows.clone();
+                rows[*row][*col] = *nv;
+                let violated = def.check(&rows, &inst.pis);
+                if violated.is_none() {
+                    rep.case(sig, false);
+                    continue;
+                }
+                rep.fault("strategy.forged_missing_quotient_cap");
+                rep.case(sig, true);
+                case.sched.arm();
+                match forge_missing_quotient_cap::<C, COLS, PIS>(def, &cfg, &rows, &inst.pis) {
+                    Ok(p) => {
+                        if stark_verify::<C, COLS, PIS>(def, &cfg, &p).is_ok() {
+                            viol(rep, case, Some(f), "accepted_forged_proof_without_quotient_cap", format!("violating trace (row {row} col {col}, constraint {:?}); the proof carries no quotient cap", violated));
+                        }
+                    }
+                    Err(_) => rep.probe("c09.forger_not_applicable"),
                 }
             }
             SFault::ProverPi(k, nv) => {
@@ -375,4 +402,104 @@ pub fn shrink(case: &Value) -> Vec<Value> {
         out.push(d);
     }
     out.into_iter().map(|d| serde_json::to_value(d).unwrap()).collect()
+}
+
+/// A hand-written Byzantine STARK prover (strategy "missing quotient cap"): commits to a VIOLATING
+/// trace, replays the verifier's transcript, and only after seeing zeta chooses "quotient"
+/// polynomials that make the identity hold at zeta; it sends no quotient cap, so those polynomials
+/// are never bound to the transcript. A sound verifier must reject such a proof (definitions with
+/// a quotient must carry a quotient cap).
+pub fn forge_missing_quotient_cap<C: GenericConfig<D, F = F>, const COLS: usize, const PIS: usize>(
+    def: &Def,
+    cfg: &StarkConfig,
+    rows: &[Vec<u64>],
+    pis: &[u64],
+) -> Result<StarkProofWithPublicInputs<F, C, D>, String> {
+    use core::cmp::{max, min};
+    use plonky2::field::extension::FieldExtension;
+    use plonky2::field::polynomial::PolynomialCoeffs;
+    use plonky2::field::types::Field;
+    use plonky2::fri::oracle::PolynomialBatch;
+    use plonky2::iop::challenger::Challenger;
+    use plonky2::util::{log2_ceil, log2_strict};
+    use starky::constraint_consumer::ConstraintConsumer;
+    use starky::evaluation_frame::{StarkEvaluationFrame, StarkFrame};
+    use starky::proof::{StarkOpeningSet, StarkProof};
+    use starky::stark::Stark;
+    if !def.lookups.is_empty() || def.constraints.is_empty() {
+        return Err("strategy applies to definitions with a quotient and without auxiliary polynomials".into());
+    }
+    guarded(|| {
+        let stark = SimStark::<COLS, PIS>::new(def.clone());
+        let ext = |x: F| <FE as FieldExtension<D>>::from_basefield(x);
+        let trace = rows_to_polys(rows, COLS);
+        let public_inputs = felts(pis);
+        let degree = trace[0].len();
+        let degree_bits = log2_strict(degree);
+        let fri_params = cfg.fri_params(degree_bits);
+        let (rate_bits, cap_height) = (cfg.fri_config.rate_bits, cfg.fri_config.cap_height);
+        let g = F::primitive_root_of_unity(degree_bits);
+        let mut timing = TimingTree::default();
+        let trace_commitment = PolynomialBatch::<F, C, D>::from_values(trace, rate_bits, false, cap_height, &mut timing, None);
+        let trace_cap = trace_commitment.merkle_tree.cap.clone();
+        let mut challenger = Challenger::<F, C::Hasher>::new();
+        challenger.observe_elements(&public_inputs);
+        cfg.observe(&mut challenger);
+        challenger.observe_cap(&trace_cap);
+        // the constraint-binding step of the transcript
+        let alphas_prime = challenger.get_n_challenges(cfg.num_challenges);
+        let pow_degree = max(2, Stark::<F, D>::constraint_degree(&stark) + 1);
+        let num_extension_powers = max(1, 50 / log2_ceil(pow_degree) - 1);
+        let total_dummy = 2 * COLS;
+        let simulating_zetas = challenger.get_n_extension_challenges::<D>(total_dummy.div_ceil(num_extension_powers));
+        let per_zeta = min(num_extension_powers + 1, total_dummy);
+        let dummy: Vec<FE> = simulating_zetas.iter().flat_map(|&z| core::iter::successors(Some(z), move |prev: &FE| Some(prev.exp_u64(pow_degree as u64))).take(per_zeta)).collect();
+        let zeta_prime = challenger.get_extension_challenge::<D>();
+        let n_ext = FE::from_canonical_usize(degree);
+        let g_ext = ext(g);
+        let pis_ext: Vec<FE> = public_inputs.iter().map(|&p| ext(p)).collect();
+        let eval_at = |point: FE, alphas: &[F], local: &[FE], next: &[FE]| -> (Vec<FE>, FE) {
+            let z_h = point.exp_power_of_2(degree_bits) - FE::ONE;
+            let l_0 = z_h / (n_ext * (point - FE::ONE));
+            let l_last = z_h / (n_ext * (g_ext * point - FE::ONE));
+            let z_last = point - ext(g.inverse());
+            let mut consumer = ConstraintConsumer::<FE>::new(alphas.iter().map(|&a| ext(a)).collect(), z_last, l_0, l_last);
+            let vars = StarkFrame::<FE, FE, COLS, PIS>::from_values(local, next, &pis_ext);
+            stark.eval_ext(&vars, &mut consumer);
+            (consumer.accumulators(), z_h)
+        };
+        let (bound, _) = eval_at(zeta_prime, &alphas_prime, &dummy[..COLS], &dummy[COLS..2 * COLS]);
+        challenger.observe_extension_elements::<D>(&bound);
+        let alphas = challenger.get_n_challenges(cfg.num_challenges);
+        // NO quotient cap is observed: zeta is known before the "quotient" is chosen
+        let zeta = challenger.get_extension_challenge::<D>();
+        let tr_open = StarkOpeningSet::<F, D>::new::<C>(zeta, g, &trace_commitment, None, None, 0, false, &[]);
+        let (van, z_h) = eval_at(zeta, &alphas, &tr_open.local_values, &tr_open.next_values);
+        let zc: [F; D] = <FE as FieldExtension<D>>::to_basefield_array(&zeta);
+        let qdf = stark.quotient_degree_factor();
+        let mut polys: Vec<PolynomialCoeffs<F>> = Vec::new();
+        for &v in &van {
+            // first chunk: a + b X with value v / Z_H(zeta) at zeta; the remaining chunks are zero
+            let d: [F; D] = <FE as FieldExtension<D>>::to_basefield_array(&(v / z_h));
+            let b = d[1] / zc[1];
+            let a = d[0] - b * zc[0];
+            let mut c = vec![F::ZERO; degree];
+            c[0] = a;
+            if degree > 1 {
+                c[1] = b;
+            }
+            polys.push(PolynomialCoeffs::new(c));
+            for _ in 1..qdf {
+                polys.push(PolynomialCoeffs::new(vec![F::ZERO; degree]));
+            }
+        }
+        let quotient_commitment = PolynomialBatch::<F, C, D>::from_coeffs(polys, rate_bits, false, cap_height, &mut timing, None);
+        let openings = StarkOpeningSet::<F, D>::new::<C>(zeta, g, &trace_commitment, None, Some(&quotient_commitment), 0, false, &[]);
+        // same order as the library's to_fri_openings: zeta batch (local, quotient), then the next-row batch
+        challenger.observe_extension_elements::<D>(&openings.local_values);
+        challenger.observe_extension_elements::<D>(openings.quotient_polys.as_ref().unwrap());
+        challenger.observe_extension_elements::<D>(&openings.next_values);
+        let opening_proof = PolynomialBatch::<F, C, D>::prove_openings(&stark.fri_instance(zeta, g, 0, vec![], cfg), &[&trace_commitment, &quotient_commitment], &mut challenger, &fri_params, None, None, &mut timing);
+        StarkProofWithPublicInputs { proof: StarkProof { trace_cap, auxiliary_polys_cap: None, quotient_polys_cap: None, openings, opening_proof }, public_inputs }
+    })
 }
